@@ -200,6 +200,37 @@ def h_groups(I, hi, part):
     return [model]
 
 
+def h_set_group_edge(I, hi):
+    """set_group with an empty list creates an (empty) group; an invalid element is refused and
+    leaves the container unchanged."""
+    c = FIXContainer({11: "x"})
+    gt = I.int("group_tag", 1, hi)
+    I.assume(gt != 11)
+    which = I.choice("case", 2)
+    if which == 0:
+        c.set_group(spell(I, "spell", gt), [])
+        I.check(gt in c and c.is_group(gt) is True, "set_group(tag, []) did not create the group tag")
+        I.check(c.get_group_list(gt) == [], "empty group does not read back as an empty list")
+        try:
+            c.set_group(gt, [{1: "a"}])
+            I.check(False, "set_group over an existing (empty) group succeeded")
+        except DuplicatedTagError:
+            pass
+        I.check(not (c == FIXContainer({11: "x"})), "container with an empty group equals the container without it")
+        I.goal("empty-group")
+    else:
+        n = I.choice("valid_items_before", 3)
+        before = content(c)
+        try:
+            c.set_group(gt, [{1: "v%d" % k} for k in range(n)] + [12345])
+            I.check(False, "set_group accepted a non-container item")
+        except FIXMessageError:
+            pass
+        I.check(content(c) == before, "refused set_group left a partial group behind")
+        I.goal("refused-group")
+    return [content(c)]
+
+
 def h_group_errors(I, hi):
     """Missing, plain and group tags are distinguished by the documented errors; refused
     operations leave the container unchanged."""
@@ -338,6 +369,8 @@ def cells(tier):
                     goals=["inserted"], budget_s=2400))
     out.append(Cell("groups/lookup", lambda I: h_groups(I, hi, "lookup"), dict(tags=tb, items="1..2", by_index="symbolic in [0,4]", by_value="symbolic", values=vb),
                     goals=["index-out-of-range", "by-tag"], budget_s=2400))
+    out.append(Cell("set-group-edge", lambda I: h_set_group_edge(I, hi), dict(tags=tb, cases="empty list / invalid element after 0..2 valid ones"),
+                    goals=["empty-group", "refused-group"]))
     out.append(Cell("group-errors", lambda I: h_group_errors(I, hi), dict(tags=tb, items="1..2", values=vb),
                     goals=["plain-as-group", "missing-group", "group-as-plain"], budget_s=2400))
     out.append(Cell("equality/values", lambda I: h_equality(I, 99, False), dict(entries=2, tags="11, 55", values=vb,
